@@ -505,7 +505,7 @@ class Dict(dict, base.Symbolic, pg_typing.CustomTyping):
     """Override Symbolic._sym_clone."""
     source = dict()
     for k, v in self.sym_items():
-      if deep or isinstance(v, base.Symbolic):
+      if deep or isinstance(v, (base.Symbolic, tuple)):
         v = base.clone(v, deep, memo)
       source[k] = v
     return Dict(
